@@ -16,7 +16,7 @@
 //	            float64, float32 (values, constants, conversions; arithmetic on float64 only),
 //	            [N]byte arrays (can.Data), []byte (contents only, see "slices" below), slices of any
 //	            other element type reduced to their LENGTH (only len(x)), string (constants, locals,
-//	            results; no operations), go/types.Type / *go/types.Basic values obtained as
+//	            parameters, results; == != and switch), go/types.Type / *go/types.Basic values obtained as
 //	            types.Typ[kind] (reduced to the kind), named structs whose USED fields have these
 //	            types - including fields promoted through embedded structs (x.f = x.E.f) -,
 //	            pointers to such arrays/structs as parameters/receivers only, `error` results
@@ -40,7 +40,7 @@
 //	            value; strings as byte lists), locals, parameters, + - * / % (divisor: non-zero
 //	            constant) << >> (count: unsigned type or constant) & | ^ &^, unary - ^ ! +,
 //	            == != < <= > >= on integers and on float64, + - * / and unary - on float64,
-//	            == != on bools, && ||, conversions between integer types, integer -> float64,
+//	            == != on bools and on strings (also: switch on a string), && ||, conversions between integer types, integer -> float64,
 //	            float64 <-> float32, a[i], s.f, struct literals with keyed fields, calls of
 //	            whitelisted functions/methods, fmt.Errorf(...) (= non-nil error), nil (error or
 //	            []byte result), len(x), make([]byte, const), b[lo:hi] / b[lo:] / b[:hi] of a []byte
@@ -161,6 +161,16 @@ var whitelist = []struct{ pkg, recv, name string }{
 	{"pkg/socketcan", "frame", "transceiverError"},
 	{"pkg/socketcan", "frame", "controllerSpecificInformation"},
 	{"pkg/socketcan", "frame", "decodeErrorFrame"},
+	{"pkg/dbc", "MessageID", "IsExtended"},
+	{"pkg/dbc", "MessageID", "ToCAN"},
+	{"pkg/dbc", "MessageID", "Validate"},
+	{"internal/identifiers", "", "IsAlphaChar"},
+	{"internal/identifiers", "", "IsNumChar"},
+	{"pkg/dbc", "SignalValueType", "Validate"},
+	{"pkg/dbc", "AccessType", "Validate"},
+	{"pkg/dbc", "EnvironmentVariableType", "Validate"},
+	{"pkg/dbc", "AttributeValueType", "Validate"},
+	{"pkg/dbc", "ObjectType", "Validate"},
 }
 
 // ---------------------------------------------------------------------------- errors
@@ -950,7 +960,6 @@ func libKey(f *types.Func) (string, bool) {
 
 const binLE = "encoding/binary.LittleEndian"
 
-
 var putIntrinsics = map[string]putIntrinsic{
 	nlencPath + ".PutUint8":  {"nlenc_PutUint8", 1, gtype{k: kInt, bits: 8}, false},
 	nlencPath + ".PutUint16": {"nlenc_PutUint16", 2, gtype{k: kInt, bits: 16}, false},
@@ -1490,6 +1499,12 @@ func (c *fctx) binary(pos token.Pos, op token.Token, g gtype, xe, ye ast.Expr, x
 			}
 			return fmt.Sprintf("(negb (Bool.eqb %s %s))", xs, ys)
 		}
+		if xg.k == kString && yg.k == kString && (op == token.EQL || op == token.NEQ) {
+			if op == token.EQL {
+				return fmt.Sprintf("(go_string_eqb %s %s)", xs, ys)
+			}
+			return fmt.Sprintf("(negb (go_string_eqb %s %s))", xs, ys)
+		}
 		if xg.k == kFloat && yg.k == kFloat && xg.bits == 64 && yg.bits == 64 {
 			switch op { // IEEE: every comparison with a NaN is false, except != which is true
 			case token.EQL:
@@ -1921,7 +1936,7 @@ func (c *fctx) block(list []ast.Stmt, ind int, k cont) string {
 			var tg gtype
 			if s.Tag != nil {
 				tg = c.typeOf(s.Tag)
-				if tg.k != kInt && tg.k != kBool {
+				if tg.k != kInt && tg.k != kBool && tg.k != kString {
 					t.failf(s.Tag.Pos(), "switch on a value of type %s", c.info.TypeOf(s.Tag))
 				}
 				tag = fmt.Sprintf("sw_%d", t.fset.Position(s.Pos()).Line)
@@ -1964,6 +1979,8 @@ func (c *fctx) block(list []ast.Stmt, ind int, k cont) string {
 						conds = append(conds, fmt.Sprintf("(Bool.eqb %s %s)", tag, c.expr(ce)))
 					case tg.k == kInt && cg.k == kInt && cg.bits == tg.bits && cg.signed == tg.signed:
 						conds = append(conds, fmt.Sprintf("(%s =? %s)", tag, c.expr(ce)))
+					case tg.k == kString && cg.k == kString:
+						conds = append(conds, fmt.Sprintf("(go_string_eqb %s %s)", tag, c.expr(ce)))
 					default:
 						t.failf(ce.Pos(), "case value of a type different from the tag's")
 					}
